@@ -27,7 +27,7 @@ def run(rep, work, tier, seed):
         conf = dict(NTasks=1, Types=["A", "B"], Vals=[1, 2], MaxDepth=3, MaxOps=4, SupKind="tiny", Bug="none")
         types = ("A", "B")
     else:
-        mc = dict(NTasks=1, Types=["A", "A2", "B"], Vals=[1, 2], MaxDepth=4, MaxOps=4, SupKind="small", Bug="none")
+        mc = dict(NTasks=1, Types=["A", "A2", "B"], Vals=[1, 2], MaxDepth=3, MaxOps=4, SupKind="small", Bug="none")
         conf = dict(NTasks=1, Types=["A", "A2", "B"], Vals=[1, 2], MaxDepth=4, MaxOps=5, SupKind="tiny", Bug="none")
         types = ("A", "A2", "B")
     rep.extra["constants"] = dict(model=mc, conformance=conf)
